@@ -821,6 +821,38 @@ Proof.
   - intros a id calls k. apply lazy_take_np; assumption.
 Qed.
 
+
+(* ------------------------------------------------------------------ a matrix without any finite score (F28, a1b1f91) *)
+
+(* when no cell of the scoring matrix is a finite number (all -inf, the wildcard column included: e.g.
+   create(["N"])), the score distribution, and the p-value <-> score conversions of the "meme" method,
+   are refused with a ValueError before the core - which has no distribution for such a matrix - is asked *)
+Theorem py_no_finite_score_raises : forall CM FM WM SM SQ SC (K : core CM FM WM SM SQ SC) s,
+  cells_some_finite (c_sm_cells K s) = false ->
+  ordered_ok true (c_sm_cells K s) = false /\
+  glue_dist K s = PyExc ValueError /\
+  (forall x v, extract_f64 x = Value v -> glue_pvalue K s x None = PyExc ValueError) /\
+  (forall x v, extract_f64 x = Value v -> glue_score K s x None = PyExc ValueError).
+Proof.
+  intros CM FM WM SM SQ SC K s H.
+  assert (Ho : ordered_ok true (c_sm_cells K s) = false).
+  { unfold ordered_ok. rewrite H. destruct (cells_nan _), (cells_posinf _), (sm_empty _); reflexivity. }
+  split; [exact Ho|]. split; [unfold glue_dist; rewrite Ho; reflexivity|]. split.
+  - intros x v Hx. unfold glue_pvalue. rewrite Hx. cbn [obind method_arg].
+    replace (zlist_eqb str_meme str_tfmpvalue) with false by reflexivity.
+    replace (zlist_eqb str_meme str_meme) with true by reflexivity.
+    rewrite andb_false_r, orb_false_r. destruct (f64_is_nan v); [reflexivity|]. rewrite Ho. reflexivity.
+  - intros x v Hx. unfold glue_score. rewrite Hx. cbn [obind method_arg].
+    replace (zlist_eqb str_meme str_tfmpvalue) with false by reflexivity.
+    replace (zlist_eqb str_meme str_meme) with true by reflexivity.
+    destruct (negb (pvalue_in_range v)); [reflexivity|]. rewrite Ho. reflexivity.
+Qed.
+
+(* the cells of create(["N"]).pssm: all -inf *)
+Example ex_all_neg_inf : cells_some_finite [[4286578688; 4286578688; 4286578688; 4286578688; 4286578688]] = false /\
+                         cells_some_finite [[4286578688; 0; 4286578688; 4286578688; 4286578688]] = true.
+Proof. vm_compute. split; reflexivity. Qed.
+
 (* ------------------------------------------------------------------ tie to the source text *)
 
 (* GenPySig.v is regenerated from lib.rs / io.rs / abc.rs on every run (translate/pyglue_sig.py):
